@@ -21,11 +21,14 @@ DEG = np.pi / 180.0
 # name -> list of (label, constructor kwargs, N, tol_rad, tiers)
 # N: samples granted to converge from 175 deg; tol: steady-state tolerance.
 TABLE = {
-    "Madgwick/IMU": [("gain=0.4", {"gain": 0.4}, 4000, 5 * 0.4 * 0.01 + 2e-3, "qt"),
+    # (the documented alternative spellings of the gains - beta, gain_imu / gain_marg, kp / ki - must give a filter that converges like the primary one)
+    "Madgwick/IMU": [("gain=0.4", {"gain": 0.4}, 4000, 5 * 0.4 * 0.01 + 2e-3, "qt"), ("beta=0.4", {"beta": 0.4}, 4000, 5 * 0.4 * 0.01 + 2e-3, "qt"),
+                     ("gain_imu=0.4", {"gain_imu": 0.4}, 4000, 5 * 0.4 * 0.01 + 2e-3, "qt"),
                      ("default", {}, 50000, 5 * 0.033 * 0.01 + 2e-3, "t")],
-    "Madgwick/MARG": [("gain=0.4", {"gain": 0.4}, 6000, 5 * 0.4 * 0.01 + 2e-3, "qt"),
+    "Madgwick/MARG": [("gain=0.4", {"gain": 0.4}, 6000, 5 * 0.4 * 0.01 + 2e-3, "qt"), ("beta=0.4", {"beta": 0.4}, 6000, 5 * 0.4 * 0.01 + 2e-3, "qt"),
+                      ("gain_marg=0.4", {"gain_marg": 0.4}, 6000, 5 * 0.4 * 0.01 + 2e-3, "qt"),
                       ("gain=0.041", {"gain": 0.041}, 50000, 5 * 0.041 * 0.01 + 2e-3, "t")],
-    "Mahony/IMU": [("default", {}, 4000, 0.2 * DEG, "qt"), ("kP=3,kI=1", {"k_P": 3.0, "k_I": 1.0}, 3000, 0.2 * DEG, "qt")],
+    "Mahony/IMU": [("default", {}, 4000, 0.2 * DEG, "qt"), ("kP=3,kI=1", {"k_P": 3.0, "k_I": 1.0}, 3000, 0.2 * DEG, "qt"), ("kp=3,ki=1", {"kp": 3.0, "ki": 1.0}, 3000, 0.2 * DEG, "qt")],
     "Mahony/MARG": [("kP=3,kI=1", {"k_P": 3.0, "k_I": 1.0}, 15000, 1.0 * DEG, "qt"), ("default", {}, 40000, 1.0 * DEG, "t")],
     "EKF/IMU/NED": [("default", {}, 3000, 0.2 * DEG, "qt")],
     "EKF/IMU/ENU": [("default", {}, 3000, 0.2 * DEG, "qt")],
